@@ -1,5 +1,5 @@
 (* Properties/C17.v -- cached sections run once per key and replay their exact output *)
-From MakoV Require Import Lib.Str Gen.Unicode Model.Cache Proofs.CacheProofs.
+From MakoV Require Import Lib.Str Gen.Unicode Model.Cache Proofs.CacheProofs Proofs.CacheKwHistory.
 Open Scope N_scope.
 
 (* a hit replays the stored value: the body is not executed, no state changes *)
@@ -101,6 +101,14 @@ Theorem C17_invalidate_uses_last_render_args : forall regions d tmpl kw kw',
   fst (get_cache_kw regions1 d false tmpl kw') = update tmpl kw.
 Proof. exact invalidate_uses_last_render_args. Qed.
 Print Assumptions C17_invalidate_uses_last_render_args.
+
+(* over any history of renders and invalidate_*() calls of one section (no bound on its length): every render hands the
+   backend the template's arguments overridden by its own, every invalidate those of the section's last render -- or the
+   template's alone when the section has not rendered yet *)
+Theorem C17_cache_arguments_over_any_history : forall d tmpl ops,
+  kw_run [] d tmpl ops = kw_spec None tmpl ops.
+Proof. exact cache_arguments_over_any_history. Qed.
+Print Assumptions C17_cache_arguments_over_any_history.
 
 (* non-vacuity *)
 Example C17_nonvacuous :
